@@ -995,6 +995,16 @@ fn misc_public_surface(cfg: &Cfg) -> Result<(), String> {
                 let h = datasketches::countmin::CountMinSketch::<u64>::suggest_num_hashes(c);
                 want!(h <= 127, "suggest_num_hashes({c}) = {h}");
             }
+            // zero weights, decay factors at both ends of (0, 1], halving down to zero
+            let mut zc = datasketches::countmin::CountMinSketch::<u32>::with_seed(3, 5, u);
+            zc.update_with_weight(1u64, 0);
+            zc.update_with_weight(2u64, 1);
+            zc.halve();
+            zc.decay(1.0);
+            zc.update_with_weight(3u64, 7);
+            zc.decay(f64::MIN_POSITIVE);
+            want!(zc.estimate(3u64) <= zc.total_weight(), "Count-Min after halve/decay: estimate {} total {}", zc.estimate(3u64), zc.total_weight());
+            let _ = datasketches::countmin::CountMinSketch::<u32>::deserialize_with_seed(&zc.serialize(), u).map_err(|e| format!("Count-Min image after decay rejected: {e}"))?;
             // upper end of the documented ranges that is cheap to build: 127 rows
             let mut big = datasketches::countmin::CountMinSketch::<u16>::with_seed(127, 3 + (u % 5) as u32, u);
             for i in 0..40u64 {
@@ -1009,6 +1019,14 @@ fn misc_public_surface(cfg: &Cfg) -> Result<(), String> {
                 let e = datasketches::frequencies::FrequentItemsSketch::<i64>::apriori_error(lg, (u >> 8) as i64 & i64::MAX);
                 want!(e >= 0.0, "apriori_error({lg}) = {e}");
             }
+            // a zero count is a valid (if useless) update
+            let mut z = datasketches::frequencies::FrequentItemsSketch::<i64>::new(8);
+            z.update_with_count(1, 0);
+            z.update_with_count(2, 3);
+            z.update_with_count(2, 0);
+            want!(z.total_weight() == 3 && z.estimate(&2) == 3 && z.estimate(&1) == 0, "update_with_count(_, 0): total {} est(2) {} est(1) {}", z.total_weight(), z.estimate(&2), z.estimate(&1));
+            let zb = datasketches::frequencies::FrequentItemsSketch::<i64>::deserialize(&z.serialize()).map_err(|e| format!("image after zero-count updates rejected: {e}"))?;
+            want!(zb.total_weight() == 3 && zb.num_active_items() == z.num_active_items(), "round trip after zero-count updates");
             // the largest documented map size (2^31 slots maximum; the table starts at 8 and grows on demand)
             let mut big = datasketches::frequencies::FrequentItemsSketch::<i64>::new(1usize << 31);
             for i in 0..200i64 {
@@ -1030,6 +1048,14 @@ fn misc_public_surface(cfg: &Cfg) -> Result<(), String> {
             want!(f.contains(&u) && f.bits_used() >= 1, "Bloom filter with MAX_NUM_HASHES");
             let back = BloomFilter::deserialize(&f.serialize()).map_err(|e| format!("MAX_NUM_HASHES Bloom image rejected: {e}"))?;
             want!(back.contains(&u) && back.bits_used() == f.bits_used(), "Bloom filter with MAX_NUM_HASHES round trip");
+            // with_accuracy at the ends of its documented ranges (max_items > 0, fpp in (0, 1])
+            for (n, p) in [(1u64, 1.0f64), (1, 0.5), (1, 1e-12), (1 + u % 5000, 1.0), (1 + u % 5000, unit.max(1e-9))] {
+                let mut g = BloomFilterBuilder::with_accuracy(n, p).seed(u).build();
+                g.insert(n);
+                want!(g.contains(&n) && g.capacity() >= 1 && g.num_hashes() >= 1, "with_accuracy({n}, {p})");
+                let gb = BloomFilter::deserialize(&g.serialize()).map_err(|e| format!("with_accuracy({n}, {p}) image rejected: {e}"))?;
+                want!(gb.contains(&n) && gb.capacity() == g.capacity() && gb.num_hashes() == g.num_hashes(), "with_accuracy({n}, {p}) round trip");
+            }
             // sizing helpers at the ends of their ranges
             for (n, p) in [(1u64, 1.0f64), (1, 1e-300), (u64::MAX, 0.5), (u64::MAX, 1e-300), (1 + u % 1_000_000, unit.max(1e-12))] {
                 let bits = BloomFilterBuilder::suggest_num_bits(n, p);
@@ -1139,6 +1165,19 @@ fn misc_public_surface(cfg: &Cfg) -> Result<(), String> {
             let fz = t.clone().freeze();
             want!(fz.k() == t.k() && fz.is_empty() == t.is_empty() && fz.min_value() == t.min_value() && fz.max_value() == t.max_value() && fz.total_weight() == t.total_weight(), "frozen digest accessors differ from the mutable digest's");
             let _ = (fz.pmf(&splits), fz.cdf(&splits), fz.rank(1.0), fz.quantile(0.5));
+            // infinite query points are valid (only NaN is excluded): 0 below min, 1 above max
+            if !t.is_empty() {
+                let (lo, hi) = (t.rank(f64::NEG_INFINITY), t.rank(f64::INFINITY));
+                want!(lo == Some(0.0) && hi == Some(1.0), "rank(-inf) = {lo:?}, rank(+inf) = {hi:?}");
+                let sp = [f64::NEG_INFINITY, 0.0, f64::MAX, f64::INFINITY];
+                let (c, p) = (t.cdf(&sp), t.pmf(&sp));
+                let (c, p) = (c.unwrap_or_default(), p.unwrap_or_default());
+                want!(c.len() == 5 && p.len() == 5 && c[0] == 0.0 && (p.iter().sum::<f64>() - 1.0).abs() < 1e-9, "cdf/pmf over infinite split points: {c:?} {p:?}");
+                for q in [0.0, f64::MIN_POSITIVE, 0.5, 1.0 - f64::EPSILON / 2.0, 1.0] {
+                    let v = t.quantile(q);
+                    want!(v.is_some_and(|v| v >= t.min_value().unwrap() && v <= t.max_value().unwrap()), "quantile({q}) = {v:?}");
+                }
+            }
             // k over the whole documented range (u16, at least 10)
             for k in [10u16, 32767, 32768, 40000 + (u % 20000) as u16, u16::MAX] {
                 let mut x = TDigestMut::new(k);
